@@ -25,7 +25,9 @@
    active_channels, channel.socket, channel._fileno, connected, will_close,
    close_when_flushed, total_outbufs_len, requests).  Which Python statement an
    instruction stands for is written next to its constructor and, per method,
-   in the "programs" section.
+   in the "programs" section.  send_continue() as reached from received() (I/O
+   thread) always flushes with do_close=True; as reached from service() (worker)
+   it flushes with [wc_close g].
 
    WHAT IS ABSTRACTED, and why that is sound for C13.
    * Bytes are counts.  The output buffers of a channel are ONE counter [buf]
@@ -261,7 +263,9 @@ Record cfg := mkCfg {
   send_bytes : nat;          (* adj.send_bytes *)
   hw : nat;                  (* adj.outbuf_high_watermark *)
   sndbuf : nat;              (* channel.sendbuf_len *)
-  use_poll2 : bool           (* adj.asyncore_use_poll *)
+  use_poll2 : bool;          (* adj.asyncore_use_poll *)
+  wc_close : bool            (* the do_close with which service() reaches _flush_some through send_continue():
+                                True in the code as it is (finding F18); read off the source by the harness *)
 }.
 
 Definition th0 (stack : list instr) : thread_st := mkTh stack None false false false.
@@ -374,8 +378,9 @@ Definition flush_some (c : chan) (dc : bool) : list instr := [IFlushStart c dc].
 
 (* HTTPChannel.send_continue, channel.py:173-189 (calls _flush_some() with the
    DEFAULT do_close=True, whichever thread runs it) *)
-Definition send_continue (c : chan) : list instr :=
-  [IContPre c; IAcqO c; IContAppend c] ++ flush_some c true ++ [KRelO c].
+Definition send_continue_dc (c : chan) (dc : bool) : list instr :=
+  [IContPre c; IAcqO c; IContAppend c] ++ flush_some c dc ++ [KRelO c].
+Definition send_continue (c : chan) : list instr := send_continue_dc c true.
 
 (* the event handlers as dispatched by wasyncore for a channel *)
 Definition chan_event (k : evk) (c : chan) : list instr :=
@@ -749,7 +754,7 @@ Definition exec (g : cfg) (t : tid) (i : instr) (a : answer) (s : state) : resul
     let n := pred (nreq x) in
     if conn x && (0 <? n) then Norm (setc s c (upd_req x n (pexp x) (sentc x) (queued x))) [IAddTask c] []
     else if conn x && pexp x && negb (sentc x) then
-      Norm (setc s c (upd_req x n (pexp x) (sentc x) (queued x))) (send_continue c) [LWCont c]
+      Norm (setc s c (upd_req x n (pexp x) (sentc x) (queued x))) (send_continue_dc c (wc_close g)) [LWCont c]
     else Norm (setc s c (upd_req x n (pexp x) (sentc x) (queued x))) [] []
   | ISvcTail c => if conn (getc s c) then Norm s [IPull c] [] else Norm s [] []
   | IPull c => Norm s [] []                    (* the trigger's state is not modelled *)
